@@ -4,7 +4,7 @@
     phase (marking) and the pull phase (update_if_necessary / reads) preserve.
     Definitions and small lemmas only. *)
 From Coq Require Import List ZArith Bool Arith Lia.
-From LV Require Import Reactive.Graph Reactive.GraphLemmas.
+From LV Require Import Reactive.Graph Reactive.GraphLemmas Reactive.GraphReplay.
 Import ListNotations.
 Close Scope Z_scope.
 Open Scope nat_scope.
@@ -108,9 +108,12 @@ Definition will_run_n (d : decl) (n : node) : Prop :=
   | DEff _ _ _ => ealive n = true /\ hasrun_n d n = true /\ edirty n = true
   | _ => False
   end.
-Definition uncached_ok (d : decl) (n : node) : Prop :=
+(* a memo that never ran is Dirty with an empty log; the cached value of one that ran is its
+   body replayed over its log *)
+Definition uncached_ok (i : nat) (d : decl) (n : node) : Prop :=
   match d with
-  | DMemo _ _ => cache n = None -> st n = Dirty /\ rlog n = []
+  | DMemo _ e => (cache n = None -> st n = Dirty /\ rlog n = []) /\
+                 (forall v, cache n = Some v -> replay_body p i e (rlog n) = Some v)
   | _ => True
   end.
 (* channel + waker + run queue discipline of an effect: a dirty effect has a notification
@@ -156,10 +159,10 @@ Proof.
   unfold nview_eq, will_run_n, hasrun_n. intros (?&?&?&?&?&?&?&?&?&?&?&?&?&?).
   destruct d as [| | |k ? ?]; auto; [|destruct k]; intuition congruence.
 Qed.
-Lemma uncached_ok_view d n n' : nview_eq n n' -> uncached_ok d n -> uncached_ok d n'.
+Lemma uncached_ok_view i d n n' : nview_eq n n' -> uncached_ok i d n -> uncached_ok i d n'.
 Proof.
   unfold nview_eq, uncached_ok. intros (E0&E1&E2&E3&_).
-  destruct d; auto. intros H Hc. rewrite E2 in Hc. destruct (H Hc). split; congruence.
+  destruct d; auto. rewrite E1, E2, E3. auto.
 Qed.
 Lemma queue_ok_view rdy e d n n' : nview_eq n n' -> queue_ok_n rdy e d n -> queue_ok_n rdy e d n'.
 Proof.
@@ -187,7 +190,7 @@ Qed.
 (* everything a node that is not running owes *)
 Definition Rest (s : state) (i : nat) : Prop :=
   L1 s i /\
-  uncached_ok (decl_of p i) (getn s i) /\
+  uncached_ok i (decl_of p i) (getn s i) /\
   (needs_cur s i -> Lcur s i) /\
   (needs_clean s i -> Lclean s i) /\
   (will_run s i -> since (getn s i) <> []).
